@@ -332,7 +332,14 @@ def check(run, M, tier):
             run.check(val == (ZERO_, ZERO_), "Z1", label, f.loc(p.end_node), "returned waveform has zero first and last sample",
                       "%s: on the positive-area path [%s] the returned waveform has endpoints %s (Z = provably zero): it need not start/end at zero"
                       % (name, ", ".join("%s -> %s" % kv for kv in sorted(decisions.items())), val), stmt="Z1:%s:%s" % (name, sorted(dterms)))
-        run.floor("Z1-" + name, 2, n_pos, "positive-area returning paths of " + name)
+        # a regime switch factored out into a private helper still counts: paths of the helpers this function calls multiply its own
+        extra = 1
+        for n_ in ast.walk(f.node):
+            if isinstance(n_, ast.Call):
+                tg_ = M.resolve_call(f, n_)
+                if tg_[0] == "repo" and tg_[1].mod is f.mod and tg_[1].qual != f.qual and tg_[1].name.startswith("_"):
+                    extra = max(extra, len([p_ for p_ in enumerate_paths(tg_[1].body) if p_.end == "return"]))
+        run.floor("Z1-" + name, 2, n_pos * extra, "positive-area returning paths of " + name)
         # ---- Z2 : exact area
         vn = VN(M, f, real=SCALARS, scalars=SCALARS | {"np.pi"})
         outs = [o for o in vn.run(f.body, State()) if o.status == "return"]
